@@ -108,6 +108,9 @@ func c09Corpus(x *core.Ctx) []VFrame {
 func runC09(x *core.Ctx) {
 	skipped := int64(0)
 	try := func(class string, m []byte) {
+		if x.Expired() {
+			return
+		}
 		if _, _, n, derr := spec.Decode(m, true); derr == nil && n == len(m) {
 			skipped++ // the mutant is still a valid frame: not demanded
 			return
